@@ -1,6 +1,7 @@
 package vars
 
 import (
+	"errors"
 	"reflect"
 	"sync"
 
@@ -44,9 +45,21 @@ func (v PtrVar) GetRaw() any {
 	return reflect.Indirect(reflect.ValueOf(v.ptr)).Interface()
 }
 
+var errCannotSetToNil = errors.New("variable with a specific type cannot be set to $nil")
+
 // Set sets the value pointed by the pointer, after conversion using ScanToGo.
+//
+// ScanToGo accepts $nil for every Go type that has a nil value, but code that
+// reads the variable expects a usable list, map, function or namespace. Only a
+// variable that can hold any value can be set to $nil.
 func (v PtrVar) Set(val any) error {
 	v.mutex.Lock()
 	defer v.mutex.Unlock()
+	if val == nil {
+		t := reflect.TypeOf(v.ptr).Elem()
+		if t.Kind() != reflect.Interface || t.NumMethod() > 0 {
+			return errCannotSetToNil
+		}
+	}
 	return vals.ScanToGo(val, v.ptr)
 }
